@@ -109,6 +109,8 @@ class Run:
         return 1 if unlisted else 0
 
     def write_evidence(self, nviol, wall, listed):
+        if os.environ.get("A5_NOEVIDENCE"):
+            return   # rule development on pre-extracted facts of a patched tree: never overwrite the real evidence
         insts = self.instances
         distinct = {(i.rule, i.key) for i in insts if i.nontrivial}
         samples = [i.to_json() for i in insts if i.nontrivial][:40]
